@@ -5,7 +5,7 @@ import json, subprocess
 CLAIMED = {
  "C01": dict(
    text="Bounded model checking of the real Marshal/Unmarshal code: for each of 61 catalogue types (every codec kind in every position: scalars of every width, flat/intern/proto tags, pointers, packed/fixed/counted slices, pointer slices, nested and recursive structs, maps with string/int/struct keys and pointer/struct/slice values, time, null.*, named types, multi-byte tags, zero-sized fields, instantiated generic structs, the flat option on slices, top-level non-struct values) a value whose integers, floats (bit patterns), string bytes and time fields are unrestricted solver symbols and whose shapes (nil / empty / populated, lengths up to the bound) are enumerated is marshalled and unmarshalled by the symbolically executed library; round-trip equality up to the documented normalisations is one solver query per path (unsat = holds for every value of that shape). Default and proto-compatible configurations (both switches; each switch alone for types sensitive to both). Size-boundary harnesses with concrete shape and symbolic content cross the 1/2/3-byte length-prefix boundaries (bodies of 125..129 and 16381..16385 bytes, map entries of 126..128 and 16382..16384 bytes, slices of 7..33 elements).",
-   note="Bounds: string/[]byte length <=1 (quick) / <=2 (thorough), slice length <=1/2, map entries <=1/2, struct nesting depth 2/3; all scalar values unrestricted. Thorough tier: per top-level field one variant with that field at the larger bounds; a variant needing more than 200000 paths or 2 minutes is not claimed at those bounds (listed under coverage.bounds_reduced) and the harness is then explored completely at the quick bounds. Types outside the catalogue (incl. types built with reflect.StructOf) and larger sizes are outside the claim. reflect is modelled from go/types; codec construction runs inside the engine on that model.",
+   note="Bounds: string/[]byte length <=1 (quick) / <=2 (thorough), slice length <=1/2, map entries <=1/2, struct nesting depth 2/3; all scalar values unrestricted. Thorough tier: per top-level field one variant with that field at the larger bounds; a variant needing more than 200000 paths or 4 minutes is not claimed at those bounds (listed under coverage.bounds_reduced) and the harness is then explored completely at the quick bounds. Types outside the catalogue (incl. types built with reflect.StructOf) and larger sizes are outside the claim. reflect is modelled from go/types; codec construction runs inside the engine on that model.",
    design="DESIGN.md §4 C01"),
  "C02": dict(
    text="Differential bounded model checking against an independent definition of the wire format: a reference encoder generated from the catalogue's static types implements README.md / wire.go / the golden files (tags, zig-zag vs plain varints, fixed widths, length prefixes, packed vs counted slices, map entries as key=1/value=2, omission rules, declaration order) without calling plenc; for every catalogue type and every value within the bounds the solver decides impl_bytes == ref_bytes (for some rotation of map entry order). Decode side: the reference encoding with the top-level fields in every order (all permutations up to 3 fields) must unmarshal to the value.",
